@@ -1,0 +1,123 @@
+//! Fault injection at phase boundaries. Compiled only with the `verif` feature; does nothing unless
+//! the environment variable `WILD_VERIF_FAULT` is set.
+//!
+//! `WILD_VERIF_FAULT=<point>:<kind>[,<point>:<kind>...]` (several points may be armed, e.g. a `stop` at an
+//! early point and a fault at a later one; the first entry naming a point wins)
+//!
+//! Points (the name passed to `fault_point`), in the order in which a successful link passes them:
+//!
+//! | point                  | where                                                                 |
+//! |------------------------|-----------------------------------------------------------------------|
+//! | `after-args`           | `Linker::run` entry: args parsed, thread pool active, nothing loaded   |
+//! | `after-inputs-loaded`  | `load_inputs_and_link`: all input files opened/parsed, save-dir done   |
+//! | `after-symbol-resolution` | `load_inputs_and_link`: symbols resolved, archive members selected  |
+//! | `after-layout`         | `load_inputs_and_link`: `layout::compute` returned (output size known; with >1 thread the output file is being created in the background) |
+//! | `after-output-created` | `file_writer::Output::write`: output file created + sized (+ mmapped)  |
+//! | `mid-write`            | `elf_writer::write`: section contents written, build-id etc. not yet   |
+//! | `before-flush`         | `file_writer::Output::write`: all bytes in the buffer, before flush/chmod/unmap |
+//! | `after-write`          | `load_inputs_and_link`: `write_output_file` returned (file flushed, made executable, unmapped) |
+//! | `before-inform-parent` | `subprocess.rs`, forked child only: just before `inform_parent_done`   |
+//! | `after-inform-parent`  | `subprocess.rs`, forked child only: just after `inform_parent_done`    |
+//!
+//! Kinds:
+//!
+//! | kind    | effect                                                                               |
+//! |---------|--------------------------------------------------------------------------------------|
+//! | `error` | `fault_point` returns `Err(..)`; the call site propagates it with `?` (`fault_hit` returns `true`) |
+//! | `panic` | `panic!` (unwinding)                                                                 |
+//! | `abort` | `std::process::abort()` (SIGABRT)                                                    |
+//! | `kill9` | `libc::kill(getpid(), SIGKILL)`                                                      |
+//! | `segv`  | default disposition restored, then SIGSEGV raised                                    |
+//! | `oom`   | `std::alloc::handle_alloc_error` (allocation failure path of the runtime: message + abort) |
+//! | `stop`  | not a fault: the process stops itself (SIGSTOP) so that an observer can inspect it (threads in `/proc/<pid>/task`, jobserver pipe contents, output file state) and continues normally on SIGCONT |
+//!
+//! Call sites are add-only blocks of the form
+//! `#[cfg(feature = "verif")] crate::verif_api::fault::fault_point("<point>")?;`
+//! In functions that cannot return an error use `fault_point_noerr` (kind `error` is then ignored)
+//! or `fault_hit` (returns `true` for kind `error`, so that the call site can produce its own error).
+
+/// All point names, in link order. Kept in sync with the call sites by hand.
+pub const POINTS: &[&str] = &[
+    "after-args",
+    "after-inputs-loaded",
+    "after-symbol-resolution",
+    "after-layout",
+    "after-output-created",
+    "mid-write",
+    "before-flush",
+    "after-write",
+    "before-inform-parent",
+    "after-inform-parent",
+];
+
+pub const KINDS: &[&str] = &["error", "panic", "abort", "kill9", "segv", "oom"];
+
+pub const ENV: &str = "WILD_VERIF_FAULT";
+
+/// Returns the requested kind if `WILD_VERIF_FAULT` names `point`.
+fn requested(point: &str) -> Option<String> {
+    let specs = std::env::var(ENV).ok()?;
+    specs.split(',').find_map(|spec| {
+        let (p, kind) = spec.split_once(':')?;
+        (p == point).then(|| kind.to_owned())
+    })
+}
+
+/// Performs every kind except `error`. Returns `true` if the kind was `error`.
+fn act(point: &str, kind: &str) -> bool {
+    match kind {
+        "error" => true,
+        "panic" => panic!("verif fault injected at {point}"),
+        "abort" => std::process::abort(),
+        "kill9" => unsafe {
+            libc::kill(libc::getpid(), libc::SIGKILL);
+            // SIGKILL to ourselves is delivered before kill returns to user space; not reached.
+            loop {
+                libc::pause();
+            }
+        },
+        "segv" => unsafe {
+            // The Rust runtime installs a SIGSEGV handler (stack overflow detection); restore the
+            // default action so that the process dies by the signal as it would on a real fault.
+            libc::signal(libc::SIGSEGV, libc::SIG_DFL);
+            libc::raise(libc::SIGSEGV);
+            libc::kill(libc::getpid(), libc::SIGSEGV);
+            loop {
+                libc::pause();
+            }
+        },
+        "oom" => {
+            std::alloc::handle_alloc_error(std::alloc::Layout::from_size_align(1 << 40, 8).unwrap())
+        }
+        "stop" => unsafe {
+            libc::raise(libc::SIGSTOP);
+            false
+        },
+        other => panic!("{ENV}: unknown fault kind `{other}`"),
+    }
+}
+
+/// Fault point for call sites that can propagate an error with `?`.
+pub fn fault_point(point: &str) -> crate::error::Result {
+    if let Some(kind) = requested(point)
+        && act(point, &kind)
+    {
+        crate::bail!("verif fault injected at {point}");
+    }
+    Ok(())
+}
+
+/// Fault point for call sites that build their own error: `true` means "fail here with an error".
+pub fn fault_hit(point: &str) -> bool {
+    match requested(point) {
+        Some(kind) => act(point, &kind),
+        None => false,
+    }
+}
+
+/// Fault point for call sites that cannot fail: kind `error` is ignored.
+pub fn fault_point_noerr(point: &str) {
+    if let Some(kind) = requested(point) {
+        let _ = act(point, &kind);
+    }
+}
